@@ -978,7 +978,23 @@ def router_histories(rng, tier):
         assets = [("n", 0), ("n", 1), ("t", 2), ("t", 3)]
         allp = [(a, b) for i, a in enumerate(assets) for b in assets[i + 1:]]
         setup_pairs(h, rng, allp, comm=rng.choice([None, 0, 3 * 10 ** 15]))
-        for _ in range({"quick": 22, "thorough": 40}[tier]):
+        # directed, while the router is certainly empty: routes whose final asset is also spent by an earlier hop
+        # (a cycle back to the input through distinct pairs; a 4-hop route ending on a middle asset), no minimum
+        sh = list(assets)
+        rng.shuffle(sh)
+        A, B, C, E = sh
+        for ops, to in (([(A, B), (B, C), (C, A)], None), ([(E, A), (A, B), (B, C), (C, A)], rng.choice(h.users())),
+                        ([(A, B), (B, C), (C, E), (E, A)], rng.choice([None, USER0 + 1]))):
+            u = rng.choice(h.users())
+            amount = max(1, min(h.abal(ops[0][0], u), loguniform(rng, 1, 40)))
+            quote = h.query("rsim %d %s" % (amount, ops_line(ops)))
+            m = rng.choice([None, 0])
+            if ops[0][0][0] == "n":
+                h.do(("router_ops", u, [(ops[0][0][1], amount)], ops, m, to), quote)
+            else:
+                h.do(("send", ops[0][0][1], u, ROUTER, amount, ("hrouter", ops, m, to)), quote)
+        n_steps = {"quick": 20, "thorough": 40}[tier]
+        for step_i in range(n_steps):
             u = rng.choice(h.users())
             if rng.random() < 0.2:
                 p = rng.choice(h.pairs())
@@ -1026,7 +1042,7 @@ def router_histories(rng, tier):
                 # a round trip back to the input asset, delivered to the sender: "no loss" style minimums
                 to = rng.choice([None, u])
                 m = rng.choice([amount, quote[0] + 1, quote[0], (quote[0] + amount) // 2 + 1])
-            if rng.random() < 0.15:                        # the router is not empty
+            if rng.random() < 0.15 and rep % 2 == 1 and 2 * step_i >= n_steps:   # the router is not empty (late, and in half of the histories)
                 d = rng.choice(assets)
                 h.do(("bank", USER0, ROUTER, [(d[1], 5)]) if d[0] == "n" else ("transfer", d[1], USER0, ROUTER, 5))
             if offer[0] == "n":
